@@ -92,7 +92,7 @@ def ob_engine(name, make, tier, label, unit_heights=False, forms=("repr",)):
             ins[f"x_{v}"] = x
         rev = {id(x): n for n, x in ins.items()}
         do_out = spec.get("compare_outputs", True)
-        core_spec = {k: val for k, val in spec.items() if k in ("name", "description", "inputs", "outputs", "blocks")}
+        core_spec = {k: val for k, val in spec.items() if k in ("name", "description", "inputs", "outputs", "blocks", "share_components")}
         core_spec.setdefault("name", "demo")
 
         def rbody(v):
